@@ -140,7 +140,12 @@ void op_sign(const Case& c, TaskCtx& t, Outcome& o) {
     }
     needed = honest.size();
   }
-  bool sizemax = capspec == "sizemax"; // the caller declares an absurdly large capacity for a buffer of the advertised size
+  // the caller declares a capacity far beyond the buffer of the advertised size it really passes: SIZE_MAX, or decl<N>
+  // (2^31, 2^32, 2^32+k, 2^40, 2^63 ...: values whose low 16/31/32 bits are small)
+  bool sizemax = capspec == "sizemax" || capspec.rfind("decl", 0) == 0;
+  size_t declared = capspec == "sizemax" ? (size_t)-1 : sizemax ? (size_t)std::stoull(capspec.substr(4)) : 0;
+  if (sizemax && declared < mx)
+    declared = mx;
   size_t cap = sizemax ? mx : resolve_cap(capspec, mx, needed, p);
   bool edge = c.s("place") == "edge" || cap < mx;
   uint8_t fill = (uint8_t)c.i("outfill", 0xC7);
@@ -172,7 +177,7 @@ void op_sign(const Case& c, TaskCtx& t, Outcome& o) {
   }
   if (c.i("mnull", 0) && msg.empty())
     mptr = nullptr;
-  size_t len = sizemax ? (size_t)-1 : cap;
+  size_t len = sizemax ? declared : cap;
   int rc = libcall(t, [&] {
     if (mptr)
       return s_sign(surf, k, mptr, msg.size(), out, &len);
@@ -195,6 +200,8 @@ void op_sign(const Case& c, TaskCtx& t, Outcome& o) {
     return; // the solo execution only supplies the result; oracle clauses are evaluated in the history run
   if (t.stats) {
     t.stats->hit("op.sign");
+    if (sizemax)
+      t.stats->hit("fault.declared_capacity_beyond_buffer");
     t.stats->tuple(std::string(p.name) + "|" + family_tag(c) + "|sign|surf" + std::to_string(surf) + "|" +
                    (forced ? "och:" + c.s("och") : capspec) + "|" + (rc == 0 ? "ok" : "err"));
   }
@@ -356,7 +363,7 @@ void op_sign(const Case& c, TaskCtx& t, Outcome& o) {
   if (has_chk(c, "c13")) {
     if (rc != 0)
       CHECK_FAIL(owned("C13.sign_failed_at_advertised_size", {"C17"}), std::string(p.name) + " och=" + c.s("och") + ": sign failed with a buffer of the advertised size " +
-                                                                    std::to_string(cap));
+                                                                    std::to_string(cap) + (sizemax ? " (declared capacity " + std::to_string(declared) + ")" : ""));
     if (len > mx)
       CHECK_FAIL("C13.len_exceeds_advertised", "len " + std::to_string(len) + " > advertised " + std::to_string(mx));
     if (p.unruh && len != mx)
